@@ -124,9 +124,10 @@ VARIABLES
   n,                    \* number of steps so far
   last,                 \* history: the last step (method, caller, arguments, outcome)
   logs,                 \* history: every log emitted so far
-  burnt                 \* history: coins destroyed per token
+  burnt,                \* history: coins destroyed per token
+  hist                  \* history: the steps so far (what was asked), for B2 replay
 
-vars == <<bal, supply, allow, n, last, logs, burnt>>
+vars == <<bal, supply, allow, n, last, logs, burnt, hist>>
 view == <<bal, supply, allow, n>>   \* history variables hidden from the fingerprint
 
 St == MkState(bal, supply, allow)
@@ -140,7 +141,7 @@ Init ==
   /\ bal = [t \in Tokens |-> [h \in Holders |-> IF h \in Callers THEN InitBal ELSE 0]]
   /\ supply = [t \in Tokens |-> InitBal * Cardinality(Callers)]
   /\ allow = [t \in Tokens |-> [o \in Holders |-> [s \in Holders |-> N(0)]]]
-  /\ n = 0 /\ last = NoLast /\ logs = <<>> /\ burnt = [t \in Tokens |-> 0]
+  /\ n = 0 /\ last = NoLast /\ logs = <<>> /\ burnt = [t \in Tokens |-> 0] /\ hist = <<>>
 
 Apply(r, rec) ==
   /\ bal' = r.S.bal /\ supply' = r.S.supply /\ allow' = r.S.allow
@@ -148,6 +149,7 @@ Apply(r, rec) ==
   /\ last' = [rec EXCEPT !.ok = r.ok, !.logs = r.logs, !.ret = r.ret]
   /\ logs' = logs \o r.logs
   /\ burnt' = [t \in Tokens |-> burnt[t] + (supply[t] - r.S.supply[t])]
+  /\ hist' = Append(hist, [kind |-> rec.kind, t |-> rec.t, m |-> rec.m, c |-> rec.c, a1 |-> rec.a1, a2 |-> rec.a2, amt |-> rec.amt])
 
 CallRec(t, m, c, a1, a2, amt) == [NoLast EXCEPT !.kind = "call", !.t = t, !.m = m, !.c = c, !.a1 = a1, !.a2 = a2, !.amt = amt]
 
@@ -183,6 +185,9 @@ Next ==
 
 Spec == Init /\ [][Next]_vars
 
+(* callers are interchangeable and so are tokens: the exhaustive configs declare them symmetric *)
+Sym == Permutations(Callers) \cup Permutations(Tokens)
+
 -----------------------------------------------------------------------------
 (* What C10 asks for, stated on the variables (not through CallResult).      *)
 RECURSIVE SumOver(_, _)
@@ -207,6 +212,35 @@ ViewsExact ==
 
 (* the zero address never receives coins and never grants or holds an allowance *)
 ZeroIsInert == \A t \in Tokens : bal[t][Zero] = 0 /\ \A h \in Holders : allow[t][Zero][h] = N(0) /\ allow[t][h][Zero] = N(0)
+
+(* vacuity guard, evaluated in the initial state: a fixed scenario of 8 calls (each prefix of length    *)
+(* <= MaxCalls is one of the explored behaviours) takes every branch of the semantics                   *)
+Witness ==
+  n = 0 =>
+    LET c1 == CHOOSE c \in Callers : TRUE
+        c2 == CHOOSE c \in Callers \ {c1} : TRUE
+        c3 == CHOOSE c \in Callers \ {c1, c2} : TRUE
+        t  == CHOOSE x \in Tokens : TRUE
+        u  == CHOOSE x \in Tokens \ {t} : TRUE
+        R(S, m, c, a1, a2, amt) == CallResult(S, t, m, c, a1, a2, amt, FALSE)
+        r1 == R(St, "approve", c1, c2, None, N(2))
+        r2 == R(r1.S, "transferFrom", c2, c1, c3, N(1))
+        r3 == R(r2.S, "burnFrom", c2, c1, None, N(1))
+        r4 == R(r3.S, "transferFrom", c2, c1, c3, N(1))                     \* allowance used up
+        r5 == R(r3.S, "approve", c1, c2, None, MAXU)
+        r6 == R(r5.S, "transferFrom", c2, c1, c3, N(0))
+        r7 == R(r5.S, "transfer", c1, Zero, None, N(0))                      \* zero receiver
+        r8 == R(r5.S, "burn", c3, None, None, N(InitBal + 2))                \* more than the balance
+        r9 == CallResult(r1.S, u, "transferFrom", c2, c1, c3, N(1), FALSE)   \* approval on t is no approval on u
+        r1s == CallResult(St, t, "approve", c1, c2, None, N(2), TRUE)
+        rA == CallResult(r1s.S, u, "transferFrom", c2, c1, c3, N(1), TRUE)   \* ... but it is with the shared table (D5)
+    IN /\ InitBal >= 2 /\ Cardinality(Callers) >= 3 /\ Cardinality(Tokens) >= 2
+       /\ r1.ok /\ r1.S.allow[t][c1][c2] = N(2) /\ r1.S.allow[u][c1][c2] = N(0)
+       /\ r2.ok /\ r2.S.allow[t][c1][c2] = N(1) /\ r2.S.bal[t][c3] = InitBal + 1 /\ r2.S.bal[t][c1] = InitBal - 1
+       /\ r3.ok /\ r3.S.allow[t][c1][c2] = N(0) /\ r3.S.supply[t] = St.supply[t] - 1
+       /\ ~r4.ok /\ r4.S = r3.S
+       /\ r5.ok /\ r6.ok /\ r6.S.allow[t][c1][c2] = MAXU
+       /\ ~r7.ok /\ ~r8.ok /\ ~r9.ok /\ rA.ok
 
 (* a successful state-changing call emits exactly one log that states what happened; *)
 (* views and failing calls emit none                                                 *)
